@@ -37,7 +37,9 @@ import (
 // with ids obtained from TunnelIDFromString on id strings of the shapes the product
 // generates.
 
-const c10Watchdog = 60 * time.Second
+// Socket deadline of one case (<= 3 MiB over loopback). Expiry is never a verdict: the
+// case is counted under "watchdog" and the run becomes inconclusive.
+const c10Watchdog = 25 * time.Second
 
 // every injected payload (when non-empty) starts with this marker followed by the
 // kind index, so that a leaked frame can be attributed. Own data is vk.Pattern
@@ -194,7 +196,7 @@ func (t c10Tracker) IsTunnelClosed(string) bool { return t.answer }
 // ---- one direction of a case ----
 
 type c10Op struct {
-	Write int        // >= 0: Write of that many bytes; -1: inject Frames
+	Write  int        // >= 0: Write of that many bytes; -1: inject Frames
 	Frames []c10Frame `json:",omitempty"`
 }
 
@@ -258,6 +260,9 @@ func c10RunWriter(s *FrameStream, tcp *net.TCPConn, own [16]byte, d *c10Dir, res
 			res.timeout = true
 		}
 		res.errStr = what + ": " + err.Error()
+		// nothing more will be sent in this direction: let the peer's reader see the end
+		// of the byte stream instead of waiting for the socket deadline
+		tcp.CloseWrite()
 	}
 	for i, op := range d.Ops {
 		if op.Write >= 0 {
@@ -271,6 +276,7 @@ func c10RunWriter(s *FrameStream, tcp *net.TCPConn, own [16]byte, d *c10Dir, res
 			if n != len(p) {
 				res.short = fmt.Sprintf("Write #%d of %d bytes returned n=%d, err=nil", i, len(p), n)
 				res.wantMax = append(append([]byte(nil), res.want...), p...)
+				tcp.CloseWrite()
 				return
 			}
 			if op.Write > MaxFrameSize {
@@ -385,7 +391,7 @@ func c10RunReader(s *FrameStream, d *c10Dir, limit int, res *c10RRes) {
 			break
 		}
 		if len(res.got) > limit {
-			res.capHit = fmt.Sprintf("reader received more than %d bytes", limit)
+			res.capHit = fmt.Sprintf("reader received more than the %d bytes that were written in this direction", limit)
 			return
 		}
 	}
@@ -595,7 +601,9 @@ func c10RunCase(t *testing.T, run *vk.Run, ln net.Listener, c *c10Case) {
 	defer link.close()
 	sA := c10NewStream(link.ca, c.Own, c.Tracker)
 	sB := c10NewStream(link.cb, c.Own, c.Tracker)
-	limit := func(d *c10Dir) int { w, i := d.totals(); return w + i + d.Partial[1] + (1 << 20) }
+	// a reader stops as soon as it holds more bytes than the peer's script writes at all
+	// (already a refutation; avoids waiting for an EOF that such a stream may never give)
+	limit := func(d *c10Dir) int { w, _ := d.totals(); return w + d.Partial[1] }
 	var ab, ba c10DirOutcome
 	var wg sync.WaitGroup
 	switch c.Mode {
@@ -745,7 +753,7 @@ func c10WriteSize(r *rand.Rand) int {
 func c10GenDir(r *rand.Rand, own, foreign [16]byte, ending string) *c10Dir {
 	d := &c10Dir{Ending: ending, DataSeed: r.Uint64(), ReadSeed: r.Int63(),
 		BufClass: []string{"tiny", "small", "large", "mixed", "mixed", "frame"}[r.Intn(6)],
-		PostEOF:  r.Intn(2) == 0}
+		PostEOF:  true}
 	budget := 1536 * 1024
 	if d.BufClass == "tiny" {
 		budget = 160 * 1024
@@ -941,7 +949,7 @@ func TestVerifC10Stream(t *testing.T) {
 		if i < 3 {
 			run.Sample(c.detail(run.Seed))
 		}
-		if run.Violations() >= 12 {
+		if run.Violations() >= 12 || run.Counter("watchdog") >= 3 {
 			break
 		}
 	}
@@ -1004,14 +1012,14 @@ func TestVerifC10TunnelIDs(t *testing.T) {
 		var wg sync.WaitGroup
 		wg.Add(1)
 		go func() { defer wg.Done(); c10RunWriter(a1, link.ta, id1, t1, &o1.w) }()
-		c10RunReader(b1, t1, 1<<20, &o1.r)
+		c10RunReader(b1, t1, t1.Ops[0].Write, &o1.r)
 		wg.Wait()
 		// B closes its side of tunnel 1, A consumes that Close frame
 		var back c10RRes
 		if err := b1.Close(); err != nil {
 			t.Fatalf("c10: closing tunnel 1 on B: %v", err)
 		}
-		c10RunReader(a1, &c10Dir{BufClass: "small", ReadSeed: 1}, 1<<20, &back)
+		c10RunReader(a1, &c10Dir{BufClass: "small", ReadSeed: 1}, 0, &back)
 		if cl, _ := c10Judge(t1, &o1.w, &o1.r); cl != "" || back.err != io.EOF || len(back.got) != 0 {
 			// tunnel 1 alone is what the stream monitor checks; here it is only the set-up
 			run.Count("tunnel1_setup_not_clean", 1)
@@ -1023,7 +1031,7 @@ func TestVerifC10TunnelIDs(t *testing.T) {
 		a2, b2 := NewFrameStream(link.ca, id2), NewFrameStream(link.cb, id2)
 		wg.Add(1)
 		go func() { defer wg.Done(); c10RunWriter(a2, link.ta, id2, c.AB, &o2.w) }()
-		c10RunReader(b2, c.AB, 1<<20, &o2.r)
+		c10RunReader(b2, c.AB, w1+w2, &o2.r)
 		link.drain(link.tb)
 		wg.Wait()
 		link.close()
@@ -1037,6 +1045,9 @@ func TestVerifC10TunnelIDs(t *testing.T) {
 			run.Count("residual_frames_filtered_cases", 1)
 		}
 		run.Distinct(fmt.Sprintf("%s|share16=%v|len1>16=%v|len2>16=%v", shape, share16, len(s1) > 16, len(s2) > 16))
+		if run.Counter("watchdog") >= 3 {
+			break
+		}
 		if i < 6 {
 			run.Sample(map[string]any{"shape": shape, "tunnel1": s1, "tunnel2": s2, "wire1": fmt.Sprintf("%x", id1), "wire2": fmt.Sprintf("%x", id2)})
 		}
